@@ -39,7 +39,27 @@ func PickConfig(r *vh.Rng, k int) Config {
 			c.Quant, c.Trigger, c.Dim = "pq", 5+r.Intn(6), 4
 		}
 	}
+	c.VPath, c.GPath = PickPaths(r)
 	return c
+}
+
+// PickPaths: the index schema keys. Half of the configurations index NESTED properties (dotted
+// paths): there an update never carries the schema key itself — it carries the top-level object and
+// replaces it as a whole, so the vector is changed / dropped by updates that name a parent, a sibling
+// or an ancestor of the leaf. The integer index of the pre-filters is flat, a sibling of the vector
+// leaf (same parent: updating it replaces the parent and drops the vector), or under another parent.
+func PickPaths(r *vh.Rng) (vp, gp string) {
+	if r.Chance(45) {
+		return "v", vh.Pick(r, []string{"g", "g", "m.g"})
+	}
+	vp = vh.Pick(r, []string{"n.v", "n.v", "n.m.v", "a.b.c.v"})
+	top := vp[:1]
+	par := vp[:len(vp)-2]
+	gp = vh.Pick(r, []string{"g", par + ".g", top + ".g", "x.g"})
+	if gp == par+".g" && r.Chance(30) {
+		gp = "g"
+	}
+	return
 }
 
 // RandVec draws from small grids so that equal distances are frequent.
@@ -90,6 +110,7 @@ type GenState struct {
 	Cfg      Config
 	Next     int
 	Live     map[int]bool // point idx -> has the vector field
+	Docs     map[int]map[string]any // point idx -> the document the point should hold now
 	MaxLive  int
 	Dups     bool // update batches may name a point more than once
 	InsOnly  bool
@@ -97,7 +118,7 @@ type GenState struct {
 }
 
 func NewGenState(c Config, maxLive int) *GenState {
-	return &GenState{Cfg: c, Live: map[int]bool{}, MaxLive: maxLive}
+	return &GenState{Cfg: c, Live: map[int]bool{}, Docs: map[int]map[string]any{}, MaxLive: maxLive}
 }
 
 func (g *GenState) liveIdx() []int {
@@ -116,9 +137,26 @@ func (g *GenState) genInsert(r *vh.Rng, n int) Op {
 		g.Next++
 		if r.Chance(88) || g.InsOnly {
 			p.VSet, p.V = true, RandVec(r, g.Cfg)
+		} else {
+			// a point without the vector: nothing at all, a nil leaf, or (nested) the parent
+			// object without the leaf
+			switch r.Intn(4) {
+			case 1:
+				p.VNil = true
+			case 2:
+				p.VObj = true
+			case 3:
+				p.Sib = true
+			}
 		}
 		if r.Chance(10) {
 			p.GSet = false
+		}
+		if r.Chance(25) {
+			p.Sib = true
+		}
+		if r.Chance(15) {
+			p.Tag = true
 		}
 		o.Pts = append(o.Pts, p)
 	}
@@ -159,15 +197,40 @@ func (g *GenState) NextWrite(r *vh.Rng) Op {
 			}
 			p := PC{Idx: idx}
 			switch m := r.Intn(100); {
-			case m < 55:
+			case m < 50:
+				// the leaf gets a new vector (nested: the parent object is replaced by one carrying it)
 				p.VSet, p.V = true, RandVec(r, g.Cfg)
-			case m < 82:
-				p.VDel = true
-			default:
+				p.Sib = r.Chance(25)
+			case m < 78:
+				// the vector goes away: the top-level key is deleted, the leaf becomes nil, or (nested)
+				// the parent object is replaced by one without the leaf (empty, or a sibling only)
+				switch k := r.Intn(100); {
+				case k < 45 || (!g.Cfg.Nested() && k < 80):
+					p.VDel = true
+				case k < 60 || !g.Cfg.Nested():
+					p.VNil = true
+				case k < 80:
+					p.VObj = true
+				default:
+					p.Sib = true
+				}
+			case m < 90:
+				// the filter property only (when it lives under the vector's top-level key the update
+				// replaces that object and the vector is gone)
 				p.GSet, p.G = true, int64(r.Intn(5))
+			default:
+				// a field no index knows: a sibling of the leaf, or an unrelated top-level key
+				if r.Chance(50) {
+					p.Sib = true
+				} else {
+					p.Tag = true
+				}
 			}
 			if r.Chance(20) {
 				p.GSet, p.G = true, int64(r.Intn(5))
+			}
+			if r.Chance(10) {
+				p.Tag = true
 			}
 			o.Pts = append(o.Pts, p)
 		}
@@ -241,12 +304,16 @@ func (g *GenState) NextWrite(r *vh.Rng) Op {
 	return o
 }
 
-// Believe updates the generator's picture after a write op.
+// Believe updates the generator's picture after a write op: it keeps the documents the points should
+// hold (top-level merge, as the shard does) and reads "has the vector field" off them.
 func (g *GenState) Believe(o Op) {
+	vs := g.Cfg.vSegs()
 	switch o.Kind {
 	case "ins":
 		for _, p := range o.Pts {
-			g.Live[p.Idx] = p.VSet
+			doc := MergeTop(nil, g.Cfg.DocOf(p))
+			g.Docs[p.Idx] = doc
+			g.Live[p.Idx] = LookupPath(doc, vs) != nil
 			if p.Idx >= g.Next {
 				g.Next = p.Idx + 1
 			}
@@ -256,15 +323,14 @@ func (g *GenState) Believe(o Op) {
 			if _, ok := g.Live[p.Idx]; !ok {
 				continue
 			}
-			if p.VSet {
-				g.Live[p.Idx] = true
-			} else if p.VDel {
-				g.Live[p.Idx] = false
-			}
+			doc := MergeTop(g.Docs[p.Idx], g.Cfg.DocOf(p))
+			g.Docs[p.Idx] = doc
+			g.Live[p.Idx] = LookupPath(doc, vs) != nil
 		}
 	case "del":
 		for _, p := range o.Pts {
 			delete(g.Live, p.Idx)
+			delete(g.Docs, p.Idx)
 		}
 	}
 }
@@ -285,7 +351,7 @@ func (g *GenState) NextQuery(r *vh.Rng) Op {
 	case m < 80:
 		lo := int64(r.Intn(5))
 		hi := lo + int64(r.Intn(3))
-		q.Filter = "g:" + itoa(lo) + ":" + itoa(hi)
+		q.Filter = "g:" + itoa(lo) + ":" + itoa(hi) // integer range on the filter property (Config.GProp)
 	default:
 		live := g.liveIdx()
 		n := r.Intn(6)
